@@ -71,8 +71,11 @@ class TmatrixFailure(Exception):
     def __init__(self, logfilestr):
             self.logfilestr = logfilestr
     def __str__(self):
-        with open(self.logfilestr) as logfile:
-            reason=list(logfile)[-1]
+        try:
+            with open(self.logfilestr) as logfile:
+                reason=list(logfile)[-1]
+        except OSError:
+            return "Tmatrix calculation failed. " + str(self.logfilestr)
         return("Tmatrix calculation failed. This might be because your scatterer's size or aspect ratio is too large for default parameters. \n Tmatrix error message: " + reason + "Full details are available in " + self.logfilestr)
 
 class AutoTheoryFailed(Exception):
